@@ -59,6 +59,7 @@ type Contract struct {
 	SubtypeOf  string         // synthesized: implementation verified against this interface contract
 	ParamAlias map[string]int // interface parameter name -> position
 	logs       []string
+	LogParams  map[string]string // parameter name -> ghost log of the dynamic calls made through it
 }
 
 type SpecFun struct {
@@ -305,6 +306,17 @@ func (ct *ContractTable) LoadFile(path, pkg string, inRepo bool) {
 				cur.Trusted = true
 			case "logged":
 				cur.Logged = rest
+			case "logparam":
+				// logparam <param> <log>: calls through the function-typed parameter are recorded
+				fs := strings.Fields(rest)
+				if len(fs) != 2 {
+					ct.errf(path, ln, "logparam <param> <log>")
+					continue
+				}
+				if cur.LogParams == nil {
+					cur.LogParams = map[string]string{}
+				}
+				cur.LogParams[fs[0]] = fs[1]
 			case "noinline":
 				cur.NoInline = true
 			case "inline":
